@@ -473,7 +473,8 @@ pub fn gen_c14(g: &mut Gen) {
     g.count("full-document-type");
 
     // 2f. `write_tape` into a writer that fails after n bytes, n = 0..=len (implementation-only)
-    for t in [&b"a=b"[..], b"a={ b=c d={ 1 2 } } e=rgb { 1 2 3 }", b"a={ [[p] k=v ] x=\"q\" } b={ 1 c=d { e } }", b"k > 1 z={ } y={ {} }"] {
+    for t in [&b"a=b"[..], b"a={ b=c d={ 1 2 } } e=rgb { 1 2 3 }", b"a={ [[p] k=v ] x=\"q\" } b={ 1 c=d { e } }", b"k > 1 z={ } y={ {} }",
+              b"a={ [[!p] k=v l={ m } ] [[!q] r ] }", b"a={ 1 b=c { d } = e f<g } \"q\"={ \"r\" }"] {
         let full_len = TextTape::from_slice(t).ok().and_then(|tp| write_with(&tp, b' ', 2).ok()).map_or(0, |o| o.len());
         let tp = TextTape::from_slice(t).map(|x| show::text_tape(x.tokens())).unwrap_or("err".to_string());
         for cap in 0..=full_len + 1 { g.emit(format!("wtapew 32 2 {} {} {}", cap, hex(t), tp)); }
